@@ -934,6 +934,9 @@ func runExploreSel(propID, group string, scenarios []*Scenario, bound int, tier 
 	if min := int(tierBudget(tier).Seconds()) / 4; slice < min {
 		slice = min
 	}
+	if bound < 0 && tier != "thorough" && slice > 45 {
+		slice = 45 // quick: a scenario whose unbounded exploration is not done by then is reported as unfinished
+	}
 	taskCh := make(chan exploreTask, len(tasks))
 	for _, t := range tasks {
 		taskCh <- t
